@@ -275,3 +275,48 @@ def estimate_nonnegative_rule(chk, cid, prog, p, cfgname):
     if n < 3:
         raise AnalysisBroken('%s: %d stores to *est found, expected >= 3' % (f.name, n))
     return n
+
+
+def alt_vector_rule(chk, cid, prog, p, cfgname):
+    """The last stage of ?lacon2 tries Higham's alternating vector x_i = (-1)^(i+1) (1 + (i-1)/(n-1)), i = 1..n: a ramp from 1 to 2.  In the
+    1-based loop the element stored is x[i-1]; the numerator of the ramp must be that same zero-based index.  With `i` the ramp runs from
+    1 + 1/(n-1) to 2 + 1/(n-1), its 1-norm grows while the result is still scaled by 2/(3n): the safeguard value is inflated (x1.67 for n = 2)
+    and can exceed the true norm, so RCOND falls below the true value for small matrices whose inverse has alternating columns."""
+    from ..run import AnalysisBroken
+    f = prog.func(p + 'lacon2_')
+    if f is None:
+        raise AnalysisBroken('%slacon2_ not found' % p)
+    chk.saw(unit=f.unit, func=f.unit + ':' + f.name)
+    n = 0
+    for x in f.body.walk():
+        if x.k != 'Assign' or x.a['op'] != '=':
+            continue
+        if not any(y.k == 'Ref' and y.a.get('name') == 'altsgn' for y in x.c[1].walk()):
+            continue
+        lhs = strip(x.c[0])
+        while lhs.k == 'Member':
+            lhs = strip(lhs.c[0])
+        if lhs.k != 'Index':
+            continue
+        divs = [y for y in x.c[1].walk() if y.k == 'Binary' and y.a['op'] == '/']
+        if not divs:
+            continue
+
+        def unc(e):
+            e = strip(e)
+            while e.k == 'Cast':
+                e = strip(e.c[0])
+            return e
+        num = unc(divs[0].c[0])
+        n += 1
+        inst = '%s:ramp-uses-the-index-of-the-element-it-fills' % f.name
+        if canon(num, ids=False) == canon(unc(lhs.c[1]), ids=False):
+            chk.ok(cid, inst, sample=pretty(x)[:70])
+        else:
+            chk.violate(cid, inst, loc(f, x), f.name,
+                        '`%s`: element %s is filled from the ramp position %s; the alternating test vector must run from 1 to 2 (position = zero-based '
+                        'index of the element), otherwise the safeguard estimate is inflated and can exceed the true norm' % (pretty(x)[:70], pretty(lhs.c[1]), pretty(num)),
+                        cfgname=cfgname)
+    if n < 1:
+        raise AnalysisBroken('%s: the alternating test vector was not found' % f.name)
+    return n
